@@ -344,9 +344,21 @@ def extract_binio(src, params):
          re.search(r"for\s+_\s+in\s+0\.\.len\s*\{\s*if\s+res\.insert\(K::parse\(\w+\)\?,\s*V::parse\(\w+\)\?\)\.is_some\(\)", pr),
          "binio: HashMap parse shape changed")
     m = re.search(r"HashMap::with_capacity\(\s*cmp::(min|max)\(\s*len\s*,\s*(\d+)\s*\)\s*\)", pr)
-    need(m, "binio: HashMap pre-allocation shape changed")
-    params["mapCapMin"] = (m.group(1) == "min")
-    params["mapCap"] = int(m.group(2))
+    if m:
+        # the cap applies to the pre-allocation only; the loop runs over the announced count
+        need(not re.search(r"let\s+(mut\s+)?len\s*=\s*[^;]*;[^;]*HashMap::with_capacity", pr.split("usize::try_from", 1)[1].split(";", 1)[1]),
+             "binio: HashMap parse re-binds `len` before the loop")
+        params["mapCapMin"] = (m.group(1) == "min")
+        params["mapCap"] = int(m.group(2))
+        params["mapLoopCap"] = None
+    else:
+        # `let len = cmp::min(len, N); … with_capacity(len); for _ in 0..len`: the cap also
+        # limits how many entries are read
+        m = re.search(r"let\s+len\s*=\s*cmp::min\(\s*len\s*,\s*(\d+)\s*\)\s*;\s*let\s+mut\s+res\s*=\s*HashMap::with_capacity\(\s*len\s*\)\s*;", pr)
+        need(m, "binio: HashMap pre-allocation shape changed")
+        params["mapCapMin"] = True
+        params["mapCap"] = int(m.group(1))
+        params["mapLoopCap"] = int(m.group(1))
     # length-prefixed bodies: allocated up front from the declared length?
     unchecked = len(re.findall(r"vec!\[0u8;\s*len\]", src))
     if unchecked == 0:
@@ -411,7 +423,7 @@ def main():
              "optBytesNoneW", "optBytesNoneR", "optTimeNoneW", "optTimeNoneR",
              "stSuccessW", "stAttemptW", "stSuccessR", "stAttemptR",
              "objHashNoneW", "objHashSomeW", "objHashNoneR", "objHashSomeR",
-             "readChecked", "mapCapMin", "mapCap"]
+             "readChecked", "mapCapMin", "mapCap", "mapLoopCap"]
     missing = [k for k in order if k not in params]
     if missing:
         print(f"layouts.py: SOURCE SHAPE CHANGED: parameters not found: {missing}")
@@ -426,7 +438,9 @@ def main():
     out.append("def params : Params where")
     for k in order:
         v = params[k]
-        if isinstance(v, bool):
+        if k == "mapLoopCap":
+            out.append(f"  {k} := {'none' if v is None else 'some ' + str(v)}")
+        elif isinstance(v, bool):
             out.append(f"  {k} := {'true' if v else 'false'}")
         else:
             out.append(f"  {k} := {lean_int(v)}")
